@@ -345,8 +345,8 @@ impl TtlConfig {
     fn positive_ttl_bounds_secs(&self, record_type: RecordType) -> (u32, u32) {
         let (min, max) = self.positive_response_ttl_bounds(record_type).into_inner();
         (
-            u32::try_from(min.as_secs()).unwrap_or(MAX_TTL),
-            u32::try_from(max.as_secs()).unwrap_or(MAX_TTL),
+            u32::try_from(min.as_secs()).unwrap_or(u32::MAX),
+            u32::try_from(max.as_secs()).unwrap_or(u32::MAX),
         )
     }
 
